@@ -1472,7 +1472,7 @@ def grid_pair(sym, charge, rad, h):
 
 
 def given_h_oracle(m, what):
-    """a hydrogen count that is given stays as it is in kekule() and in every enumerated form"""
+    """a given hydrogen count that kekule() keeps stays as it is in every enumerated form"""
     from chython.exceptions import InvalidAromaticRing
     given = {n: a.implicit_hydrogens for n, a in m._atoms.items() if a.implicit_hydrogens is not None}
     out = []
@@ -1484,6 +1484,8 @@ def given_h_oracle(m, what):
         return out
     except Exception as e:
         return [f'{what}: raises {type(e).__name__}']
+    if any(k._atoms[n].implicit_hydrogens != h for n, h in given.items()):
+        return out      # a given count the valence rules do not accept (kekule() recalculates it): reported by the main search, not here
     for name, f in forms:
         ch = {n: (h, f._atoms[n].implicit_hydrogens) for n, h in given.items() if f._atoms[n].implicit_hydrogens not in (h, None)}
         if ch:
